@@ -131,15 +131,16 @@ func parseV(s string, p poolT) (any, string, error) {
 	case t == "f:-inf":
 		return math.Inf(-1), rest, nil
 	case strings.HasPrefix(t, "f:"):
-		r, ok := new(big.Rat).SetString(t[2:])
-		if !ok {
+		ps := strings.Split(t[2:], "p")
+		if len(ps) != 2 {
 			return nil, "", fmt.Errorf("bad float %q", t)
 		}
-		f, exact := r.Float64()
-		if !exact {
-			return nil, "", fmt.Errorf("float token %q is not a float64", t)
+		m, err1 := strconv.ParseInt(ps[0], 10, 64)
+		e, err2 := strconv.Atoi(ps[1])
+		if err1 != nil || err2 != nil || m > 1<<53 || m < -(1<<53) {
+			return nil, "", fmt.Errorf("bad float %q", t)
 		}
-		return f, rest, nil
+		return math.Ldexp(float64(m), e), rest, nil
 	case strings.HasPrefix(t, "s:"):
 		if t[2:] == "-" {
 			return "", rest, nil
